@@ -129,7 +129,7 @@ T = {
  "C03-r2m1": ("C03", "lexer State::Comment ends only at LF", "a comment followed by CR (CRLF or bare CR)", ""),
  "C03-r2m2": ("C03", "State::LeadingZero arms reordered: the name-start reject arm shadows the exponent arm", "`0e5`, `-0E+12`: integer part exactly 0 directly followed by an exponent", ""),
  "C07-r2m1": ("C07", "field_set: end-of-input check only in the else branch of `if has_braces`", "a braced field set followed by another token: `{ a } b`", ""),
- "C07-r2m2": ("C07", "lexer State::Comment ends only at LF", "`Int # c\\rx`: a comment after the construct ended by a lone CR, extra token on the next line", ""),
+ "C07-r2m2": ("C07", "lexer State::Comment ends only at LF", "`Int # c\\rx`: a comment after the construct ended by a lone CR, extra token on the next line", "C07 joiner sweep: one extra token separated by comments / line terminators / commas / BOM"),
  "C10-r2m1": ("C10", "Name byte classes via a 128-entry table indexed with `byte & 0x7F`", "a non-ASCII character whose UTF-8 bytes alias onto name characters (U+00B0..B9, U+00F0..F9: `ñ`, `²`)", "C10 edge alphabet: `ñ`, `²` (added before this seed was evaluated)"),
  "C10-r2m2": ("C10", "FloatValue Deserialize::visit_string checks the Int grammar", "a deserializer that hands over an owned String (serde_json::from_value), value `3.5` or `3`", ""),
  "C02-r2m1": ("C02", "document(): early return after 'Unexpected <EOF>' skips the final push_ignored()", "a non-empty input without any definition (only white space, comments, commas, lexer-error fragments)", ""),
